@@ -52,6 +52,22 @@ def run(eng: Engine, ck: Check):
         ok = len(s) == 1 and unparse(expand_aliases(owner, s[0].args[0])) == 'tracked_user.user.name'
         ck.ob('R-C15-OWNERS', owner, owner.node, f'{owner.name} names the tracked user', ok, '', construct=f'{owner.name} user')
 
+    # ---- the two operations a request can carry: set union and set difference on the reason set
+    tu_cls = eng.cls('TrackedUser', USERM)
+    for mname, forms, what in (('add_flag', ['self.flags |= $f', 'self.flags = self.flags | $f'], 'set union (idempotent)'),
+                               ('remove_flag', ['self.flags &= ~$f', 'self.flags = self.flags & ~$f'], 'set difference (idempotent: removing a reason that is not held changes nothing)')):
+        m_ = tu_cls.methods.get(mname)
+        if m_ is None:
+            raise AnalysisError(f'anchor function vanished: TrackedUser.{mname}')
+        ck.visited(m_)
+        fp = [p_ for p_ in m_.params if p_ != 'self'][0]
+        body = [st for st in m_.node.body if not (isinstance(st, ast.Expr) and isinstance(st.value, ast.Constant))]
+        ok = len(body) == 1 and any(pat.match(body[0], pat.compile_pattern(f_.replace('$f', fp))[0]) is not None for f_ in forms)
+        ck.ob('R-C15-EDGES', m_, m_.node, f'TrackedUser.{mname} is {what}: the worker derives "empty -> non-empty" and "non-empty -> empty" from the flags '
+              'before and after applying it', ok, f'body `{"; ".join(unparse(b_) for b_ in body)}`'
+              + (' — xor toggles: untracking a reason that is not held ADDS it (spurious AddUser, missing RemoveUser)' if mname == 'remove_flag' else ''),
+              construct=f'TrackedUser.{mname} semantics')
+
     # ---- R-C15-EDGES
     # names the worker uses (discovered, not assumed): the tracked-user parameter, the request taken from its queue, the snapshot
     # of the flags, the "this is a retry" local
